@@ -175,6 +175,11 @@ def merge(ctx, cfg):
         if not _member(ctx, x, mb):
             mb.append(x)
     a.merge(b)
+    if cfg.get("then_add") is not None:      # mutate the receiver afterwards: the argument must not move (no shared storage)
+        y = _hash(ctx, "after", cfg["then_add"])
+        a.add_alt(y)
+        if not _member(ctx, y, ma) and not _member(ctx, y, mb):
+            ma = ma + [y]
     model = list(ma)
     for x in mb:
         if not _member(ctx, x, model):
@@ -281,6 +286,9 @@ def _jobs(tier):
     for qa in itertools.product(range(8), repeat=2):
         for qb in itertools.product(range(8), repeat=1 if tier == "quick" else 2):
             js.append({"h": "c04.merge", "cfg": {"qa": list(qa), "qb": list(qb)}, "opts": {"cost": 300, "witnesses": 1}})
+    for qb in itertools.product(range(8), repeat=2):
+        for then in (qb[0], (qb[0] + 1) % 8):
+            js.append({"h": "c04.merge", "cfg": {"qa": [], "qb": list(qb), "then_add": then}, "opts": {"cost": 300, "witnesses": 1}})
     for qs in ([0, 1, 2, 3, 4, 5, 6, 7], [0, 0, 0, 0, 0, 1, 1, 1], [7, 7, 7, 7, 0, 0, 0, 0], [3, 3, 3, 5, 5, 5, 7, 7], [6, 6, 7, 7, 0, 0, 1, 1]):
         js.append({"h": "c04.full", "cfg": {"qs": qs, "extra": 2}, "opts": {"cost": 5000, "witnesses": 1, "max_seconds": 240}})
     for qa in range(8):
